@@ -27,11 +27,11 @@ open MLPE
 /-- **C02 (plain pipelines): the stuck state is unreachable** -/
 theorem C02_plain_no_stuck_state (P : Program) (d : DagRef) (hp : PlainP P d) (s : St) (h : Live P s)
     (hpending : s.outcome = none) : stuck s = false :=
-  pinv_not_stuck hp (pinv_live hp h hpending) hpending
+  pinv_not_stuck hp (pinv_live (val := fun _ => none) hp h hpending) hpending
 
 /-- the invariant of plain runs holds in every state of a pending run -/
 theorem C02_plain_invariant (P : Program) (d : DagRef) (hp : PlainP P d) (s : St) (h : Live P s)
-    (hpending : s.outcome = none) : PInv P d s :=
+    (hpending : s.outcome = none) : PInv P d (fun _ => none) s :=
   pinv_live hp h hpending
 
 /-- no lost wake-up, spelled out for the launcher: if the main `_run_dag` task sits in its launch loop at node `m` and
@@ -41,7 +41,7 @@ theorem C02_plain_launcher_blocked_legitimately (P : Program) (d : DagRef) (hp :
     (hpending : s.outcome = none) (tk : Task) (m : Node) (rest : List Node) (h1 : s.tasks[1]? = some tk)
     (hf : tk.frames = [.dagLaunch d (m :: rest)]) (hb : tk.st ≠ .runnable .go) :
     tk.st = .blocked (.cond (.node m)) ∧ readyP P s m = false := by
-  have hinv := pinv_live hp h hpending
+  have hinv := pinv_live (val := fun _ => none) hp h hpending
   rcases hinv.rest with ⟨h0, _⟩ | ⟨L, hl, ⟨mtk, hm1, hmok⟩, _, _⟩
   · have := getElem?_lt h1; omega
   · rw [h1] at hm1; cases hm1
